@@ -252,3 +252,53 @@ func (r *Report) Write(path string, d *Driver) {
 		os.Exit(3)
 	}
 }
+
+// ---------------------------------------------------------------- replay
+
+// ReplayCases returns the cases recorded in a replay file: every JSON string (at any depth) or, for a
+// plain text file, every line that starts with prefix; a trailing " [..." annotation is dropped.
+func ReplayCases(path, prefix string) []string {
+	raw, err := os.ReadFile(path)
+	if err != nil {
+		return nil
+	}
+	var out []string
+	seen := map[string]bool{}
+	add := func(s string) {
+		s = strings.TrimSpace(s)
+		if !strings.HasPrefix(s, prefix) {
+			return
+		}
+		if i := strings.Index(s, " ["); i >= 0 {
+			s = s[:i]
+		}
+		if !seen[s] {
+			seen[s] = true
+			out = append(out, s)
+		}
+	}
+	var v interface{}
+	if json.Unmarshal(raw, &v) == nil {
+		var walk func(x interface{})
+		walk = func(x interface{}) {
+			switch t := x.(type) {
+			case string:
+				add(t)
+			case []interface{}:
+				for _, e := range t {
+					walk(e)
+				}
+			case map[string]interface{}:
+				for _, e := range t {
+					walk(e)
+				}
+			}
+		}
+		walk(v)
+		return out
+	}
+	for _, l := range strings.Split(string(raw), "\n") {
+		add(l)
+	}
+	return out
+}
